@@ -62,14 +62,14 @@ def check(ctx):
     ctx.count("array_expr_operator_dunders", n_d)
     ctx.floor("array_expr_operator_dunders", 25)
     ew = model.module(COL).func("elemwise")
-    ok = any(Pat("new_collection(Elemwise(op, dtype, name, where, *args))").match(r.value) is not None for r in returns(ew))
+    ok = (all(Pat("new_collection(Elemwise(op, dtype, name, where, *args))").match(r.value) is not None for r in returns(ew)) and bool(returns(ew)))
     ctx.ob("ALG.operators.elemwise", ew, "elemwise -> Elemwise(op, dtype, name, where, *args)", ok)
     em = T.exprmodel(ctx)
     elc = model.klass(PREFIX + "_blockwise.py", "Elemwise")
     ok = em.parameters(elc) == ["op", "dtype", "name", "where"]
     ctx.ob("ALG.operators.elemwise-parameters", elc.node, "Elemwise._parameters == [op, dtype, name, where]; array operands follow", ok)
     ea = elc.own_methods.get("elemwise_args")
-    ok = ea is not None and any(Pat("self.operands[len(self._parameters):]").match(r.value) is not None for r in returns(ea))
+    ok = ea is not None and (all(Pat("self.operands[len(self._parameters):]").match(r.value) is not None for r in returns(ea)) and bool(returns(ea)))
     ctx.ob("ALG.operators.elemwise-args", ea or elc.node, "elemwise_args = operands after the declared parameters, in order", ok)
     # ---------------- twin agreement with the array-expression engine's copies (see sa/twin.py)
     n_tw = check_pairs(ctx, all_pairs())
